@@ -777,7 +777,9 @@ PROPS = {
                    "(reader_no_over_read, any markers); along every history that calls header() first and makes each data call with the "
                    "marker just returned, every MessageReader call returns a value or an error — no debug assertion, no checked-counter "
                    "overflow/underflow, no unchecked read outside the buffer (reader_safe; invariant Sane = cursor view inside the message + "
-                   "read<=total<=65535 for every counter + cursor at the pending marker's RDATA); "
+                   "read<=total<=65535 for every counter + cursor at the pending marker's RDATA); RecordSet::<D>::from_msg for every D "
+                   "(rrset_safe) and the whole iterator API — MessageIterator::new, questions(), question(), records() drained — "
+                   "(iter_safe) return values or errors on every byte string; "
                    "termination by well-founded recursion with an explicit step bound. Correspondence on six decode streams with the "
                    "checked build profile, guard pages and a watchdog as implementation-side oracles.",
         level_note="Trusted: Lean kernel; hand-written model (validated by correspondence each run); harness oracles (abort = unsafe "
